@@ -69,7 +69,16 @@ def plot_event(s, schedule, req_xlim=0):
     s._ev(ev)
 
 
-NBITS = 12
+KBITS = 12
+NBITS = 24
+
+
+def _checksum(pairs):
+    """order-independent 12-bit digest of a set of (operation id, machine id) pairs"""
+    c = 0
+    for (oid, m) in pairs:
+        c = (c + (oid + 1) * 2654435761 + (m + 1) * 40503) % 4093
+    return c
 
 
 AXIS_ENDS = []
@@ -81,12 +90,28 @@ def _band_plotter(schedule, makespan=None, available_operations=None, current_ti
     scheduled operations as black/white bands (robust to GIF palettes)."""
     import matplotlib.pyplot as plt
     k = schedule.num_scheduled_operations
-    bits = [0] + [(k >> b) & 1 for b in range(NBITS)] + [0]      # black sentinel bands at both ends
-    fig = plt.figure(figsize=((NBITS + 2) * 0.16, 0.32), dpi=100)
+    c = _checksum((e.operation.operation_id, e.machine_id) for ms in schedule.schedule for e in ms)
+    # upper row: how many operations the frame shows; lower row: WHICH ones (digest); black sentinel bands at both ends
+    rows = [[0] + [(x >> b) & 1 for b in range(KBITS)] + [0] for x in (k, c)]
+    fig = plt.figure(figsize=((KBITS + 2) * 0.16, 0.64), dpi=100)
     ax = fig.add_axes([0, 0, 1, 1])
     ax.axis("off")
-    ax.imshow(np.array([bits], dtype=float), cmap="gray", vmin=0, vmax=1, aspect="auto", interpolation="nearest")
+    ax.imshow(np.array(rows, dtype=float), cmap="gray", vmin=0, vmax=1, aspect="auto", interpolation="nearest")
     return fig
+
+
+def _decode_row(row):
+    dark = np.nonzero(row < 128)[0]
+    if len(dark) == 0:
+        return -1
+    lo, hi = int(dark[0]), int(dark[-1]) + 1         # from the first to the last sentinel band
+    band = (hi - lo) / (KBITS + 2)
+    k = 0
+    for b in range(KBITS):
+        x = int(lo + (b + 1.5) * band)
+        if row[x] > 127:
+            k |= 1 << b
+    return k
 
 
 def _decode(img):
@@ -94,18 +119,13 @@ def _decode(img):
     if img.ndim == 3:
         img = img[..., :3].mean(axis=2)
     h, _w = img.shape
-    row = img[h // 2]
-    dark = np.nonzero(row < 128)[0]
-    if len(dark) == 0:
-        return -1
-    lo, hi = int(dark[0]), int(dark[-1]) + 1         # from the first to the last sentinel band
-    band = (hi - lo) / (NBITS + 2)
-    k = 0
-    for b in range(NBITS):
-        x = int(lo + (b + 1.5) * band)
-        if row[x] > 127:
-            k |= 1 << b
-    return k
+    k, c = _decode_row(img[h // 4]), _decode_row(img[(3 * h) // 4])
+    return -1 if k < 0 or c < 0 else k | (c << KBITS)
+
+
+def _split(vals):
+    """decoded band values -> (counts, digests)"""
+    return [v & ((1 << KBITS) - 1) if v >= 0 else -1 for v in vals], [v >> KBITS if v >= 0 else -1 for v in vals]
 
 
 def frames_event(s, n, rng, via_solver=None):
@@ -122,9 +142,12 @@ def frames_event(s, n, rng, via_solver=None):
         d = model.make_dispatcher(instance, [])
         h = HistoryObserver(d)
         nxt = [0] * len(inst)
+        order = []          # my own record of what was dispatched, in dispatch order
         while not d.schedule.is_complete():
             j = rng.choice([x for x in range(len(inst)) if nxt[x] < len(inst[x])])
-            d.dispatch(instance.jobs[j][nxt[j]])
+            op = instance.jobs[j][nxt[j]]
+            d.dispatch(op)
+            order.append((op.operation_id, op.machines[0]))
             nxt[j] += 1
         # the interesting histories: the operation dispatched last is not the one that finishes last
         if n < 3 or h.history[-1].end_time < d.schedule.makespan():
@@ -138,19 +161,38 @@ def frames_event(s, n, rng, via_solver=None):
             from job_shop_lib.dispatching.rules import DispatchingRuleSolver
             create_gantt_chart_gif(instance, gif, solver=DispatchingRuleSolver(via_solver), plot_function=_band_plotter,
                                    fps=50)
+            # what the same (deterministic) solver dispatches, recorded by an observer of my own
+            from job_shop_lib.dispatching import Dispatcher, DispatcherObserver
+            sv = DispatchingRuleSolver(via_solver)
+            d2 = Dispatcher(instance, ready_operations_filter=sv.ready_operations_filter)
+            del order[:]
+
+            class _Rec(DispatcherObserver):
+                def update(self, scheduled_operation):
+                    order.append((scheduled_operation.operation.operation_id, scheduled_operation.machine_id))
+
+                def reset(self):
+                    pass
+            _Rec(d2)
+            sv.solve(instance, d2)
         else:
             create_gantt_chart_gif(instance, gif, plot_function=_band_plotter, fps=50,
                                    schedule_history=list(h.history))
         return [_decode(f) for f in imageio.mimread(gif, memtest=False)]
 
     try:
-        out, ks = _outcome(go)
+        out, vals = _outcome(go)
     finally:
         shutil.rmtree(tmp, ignore_errors=True)
-    s._ev({"a": "Frames", "n": n, "out": out, "ks": ks if out == "ok" else [],
-           "axis_ends": list(AXIS_ENDS) if n <= 200 else list(AXIS_ENDS[:50]),
-           "final_makespan": int(d.schedule.makespan())} if not via_solver else
-          {"a": "Frames", "n": n, "out": out, "ks": ks if out == "ok" else [], "via": "solver:" + via_solver})
+    ks, cs = _split(vals) if out == "ok" else ([], [])
+    want = [_checksum(order[:k]) for k in range(1, len(order) + 1)]
+    ev = {"a": "Frames", "n": n, "out": out, "ks": ks, "cs": cs, "want_cs": want}
+    if via_solver:
+        ev["via"] = "solver:" + via_solver
+    else:
+        ev.update({"axis_ends": list(AXIS_ENDS) if n <= 200 else list(AXIS_ENDS[:50]),
+                   "final_makespan": int(d.schedule.makespan())})
+    s._ev(ev)
 
 
 def creator_frames_events(s, rng, n1, n2, video=False):
@@ -172,9 +214,12 @@ def creator_frames_events(s, rng, n1, n2, video=False):
         creator.partial_gantt_chart_plotter = _band_plotter
         for n in (n1, n2):
             nxt = [0] * len(inst)
+            order = []
             for _ in range(n):
                 j = rng.choice([x for x in range(len(inst)) if nxt[x] < len(inst[x])])
-                d.dispatch(instance.jobs[j][nxt[j]])
+                op = instance.jobs[j][nxt[j]]
+                d.dispatch(op)
+                order.append((op.operation_id, op.machines[0]))
                 nxt[j] += 1
 
             def go():
@@ -183,8 +228,12 @@ def creator_frames_events(s, rng, n1, n2, video=False):
                     return [_decode(f) for f in imageio.mimread(path, memtest=False)]
                 return [_decode(f) for f in imageio.mimread(path, memtest=False)]
 
-            out, ks = _outcome(go)
-            s._ev({"a": "Frames", "n": n, "out": out, "ks": ks if out == "ok" else [], "via": "video" if video else "gif"})
+            out, vals = _outcome(go)
+            ks, cs = _split(vals) if out == "ok" else ([], [])
+            ev = {"a": "Frames", "n": n, "out": out, "ks": ks, "via": "video" if video else "gif"}
+            if not video:       # (the dense digest row does not survive lossy video coding; counts do)
+                ev.update({"cs": cs, "want_cs": [_checksum(order[:k]) for k in range(1, len(order) + 1)]})
+            s._ev(ev)
             d.reset()
     finally:
         shutil.rmtree(tmp, ignore_errors=True)
